@@ -108,25 +108,27 @@ func footprint(r *ev.Run) {
 // does not change) read the same as before.
 func appendOracle(r *ev.Run, res *ech.Resolver, r1, r2 ech.ResolveResult, what string) {
 	l2 := snapResult(r2)
+	// (the append that writes in place is one that fits into the spare capacity: as many octets as the capacity holds)
+	fill := func(b []byte, c byte) { _ = append(b, bytes.Repeat([]byte{c}, cap(b)-len(b))...) }
 	for i := range r1.HTTPS {
 		h := &r1.HTTPS[i]
-		_ = append(h.ECH, bytes.Repeat([]byte{0xaa}, 64)...)
+		fill(h.ECH, 0xaa)
 		_ = append(h.ALPN, "appended-by-consumer")
 		for _, ip := range h.IPv4Hint {
-			_ = append(ip, bytes.Repeat([]byte{0xbb}, 64)...)
+			fill(ip, 0xbb)
 		}
 		for _, ip := range h.IPv6Hint {
-			_ = append(ip, bytes.Repeat([]byte{0xcc}, 64)...)
+			fill(ip, 0xcc)
 		}
 		_ = append(h.IPv4Hint, net.IP{9, 9, 9, 9})
 		_ = append(h.IPv6Hint, net.IP{9, 9, 9, 9})
 	}
 	for _, ip := range r1.Address {
-		_ = append(ip, bytes.Repeat([]byte{0xdd}, 64)...)
+		fill(ip, 0xdd)
 	}
 	for _, ips := range r1.Additional {
 		for _, ip := range ips {
-			_ = append(ip, bytes.Repeat([]byte{0xee}, 64)...)
+			fill(ip, 0xee)
 		}
 	}
 	oc := "consumer appends: nothing shared is written"
